@@ -24,6 +24,10 @@ def encodings(rng):
         "1-d arrays": lambda c, t: tuple(np.array([v]) for v in pick([4, 9, 11], c)),
         "lists": lambda c, t: tuple([v] for v in pick(["x", "y"], c)),
         "negative ints": lambda c, t: pick([-1, -5, 0], c),
+        # labels whose representation differs in length / type from the first one seen
+        "strings of different lengths": lambda c, t: ("1", "1") if t == 0 else pick(["1", "10", "11", "cat", "catalogue"], c),
+        "int first, floats later": lambda c, t: (1, 1) if t == 0 else pick([1, 1.25, 1.75, 2.5], c),
+        "bool first, ints later": lambda c, t: (True, True) if t == 0 else pick([True, 2, 3, 0], c),
     }
 
 
@@ -41,7 +45,7 @@ def run(ctx):
         ts = []
         for i in range(nseq):
             p = drv_error.random_params(kind, rng) if i % 2 else rng.choice(drv_error.small_params(kind))
-            seq = drv_error.piecewise(rng, 250, seg=(10, 60))
+            seq = [0] + drv_error.piecewise(rng, 250, seg=(10, 60))      # (the first sample is a correct prediction in every encoding)
             for name, enc in encs.items():
                 t = drv_error.run(kind, p, seq, enc=enc, X=(lambda tt: junk(rng, tt)) if i % 3 == 0 else None)
                 t["enc"] = name
@@ -51,7 +55,7 @@ def run(ctx):
     ts = []
     for i in range(nseq):
         p = drv_adwin.params(rng, small=True)
-        seq = [float(1 - c) for c in drv_error.piecewise(rng, 250, seg=(10, 60))]
+        seq = [1.0] + [float(1 - c) for c in drv_error.piecewise(rng, 250, seg=(10, 60))]
         for name, enc in encs.items():
             t = drv_adwin.run(p, [("update", x) for x in seq], accuracy=True, enc=lambda x, tt, enc=enc: enc(int(1 - x), tt))
             t["enc"] = name
